@@ -442,7 +442,14 @@ func BuildSeqHeaderFromVpsSpsPps(vps, sps, pps []byte) ([]byte, error) {
 	return sh, nil
 }
 
-func ParseVps(vps []byte, ctx *Context) error {
+func ParseVps(vps []byte, ctx *Context) (err error) {
+	// 见ParseSps中的说明
+	defer func() {
+		if r := recover(); r != nil {
+			err = nazaerrors.Wrap(base.ErrHevc)
+		}
+	}()
+
 	if len(vps) < 2 {
 		return nazaerrors.Wrap(base.ErrHevc)
 	}
@@ -476,8 +483,13 @@ func ParseVps(vps []byte, ctx *Context) error {
 	return parsePtl(&br, ctx, vpsMaxSubLayersMinus1)
 }
 
-func ParseSps(sps []byte, ctx *Context) error {
-	var err error
+func ParseSps(sps []byte, ctx *Context) (err error) {
+	// 注意，nazabits.BitReader在数据不完整时会数组越界panic，而sps的内容来自网络，所以这里转换成错误返回
+	defer func() {
+		if r := recover(); r != nil {
+			err = nazaerrors.Wrap(base.ErrHevc)
+		}
+	}()
 
 	if len(sps) < 2 {
 		return nazaerrors.Wrap(base.ErrHevc)
